@@ -102,7 +102,10 @@ func (v *visitor) visit(node ast.Node) reflect.Type {
 	case *ast.PairNode:
 		t = v.PairNode(n)
 	default:
-		panic(fmt.Sprintf("undefined node type (%T)", node))
+		if v.err == nil {
+			v.err = &file.Error{Message: fmt.Sprintf("undefined node type (%T)", node)}
+		}
+		return interfaceType
 	}
 	node.SetType(t)
 	return t
@@ -448,6 +451,9 @@ func (v *visitor) checkFunc(fn reflect.Type, method bool, node ast.Node, name st
 }
 
 func (v *visitor) BuiltinNode(node *ast.BuiltinNode) reflect.Type {
+	if n := len(node.Arguments); (node.Name == "len" && n != 1) || (node.Name != "len" && n != 2) {
+		return v.error(node, "invalid number of arguments for builtin %v", node.Name)
+	}
 	switch node.Name {
 
 	case "len":
